@@ -34,6 +34,11 @@ class Prop(common.PropertyCheck):
         for _ in range(self.budget(150, 15000)):
             M = rng.uniform(0.2, 12)
             yield {'k': 'triple', 'T': 10 ** rng.uniform(0, 8), 'M': M, 'W': rng.uniform(0, 1.5 * M)}
+        # tiny positive W (the parameter p is then within 1e-4 of 1): explicit values where the default root finder used to give up, and a log-uniform sweep
+        for W in (2.2067881192499896e-05, 1.0444992896870532e-05, 2.1627818477047468e-05, 1.3667837451383129e-05, 7.494001790604879e-06):
+            yield {'k': 'triple', 'T': rng.choice([262144., 1023., 1e4]), 'M': rng.choice([4.5, 5.0, 12.0]), 'W': W}
+        for _ in range(self.budget(400, 20000)):
+            yield {'k': 'triple', 'T': 10 ** rng.uniform(0, 6), 'M': rng.uniform(1, 12), 'W': 10 ** rng.uniform(-9, -3)}
         for _ in range(self.budget(120, 1500)):
             yield {'k': 'data', 'neg': rng.choice(['none', 'tiny', 'small', 'large']), 'multi': rng.random() < 0.4,
                    'cont': rng.choice(['array', 'sample', 'sample_rfi']), 'over': rng.choice([None, 'T', 'M', 'W']), 'seed': rng.randrange(1 << 30)}
